@@ -16,7 +16,11 @@
      slots   : an integer k is the real slot Base+k (Base a multiple of 32, 4 and 7); codes for 0, 1, 2^31-1, 2^31,
                2^32-1, 2^32, 2^62+Base, 2^63-1, 2^63, 2^64-1 (codes keep the real order).  height = slot.
      rounds  : a small integer is itself; codes for 2^31-1, 2^31, 2^32-1, 2^32, 2^63-1, 2^63, 2^64-1.
-     time    : t = [s |-> current slot, o |-> whole seconds into the slot]; the real clock is set to o + 0.5 s.
+     time    : t = [s |-> current slot, o |-> whole seconds into the slot]; the real clock is set to o + 0.5 s and the call
+               returns within 0.3 s, so a time point is >= 0.2 s away from every whole second.  The clock arithmetic is
+               in MILLISECONDS with the code's constants (section "clock arithmetic").  The code derives the CURRENT
+               SLOT from the reception time truncated to whole seconds: it is t.s for o <= 10 and t.s or t.s + 1 for
+               o = 11 (the harness cannot choose); o = 11 is used only where both give the same verdict (ClockRobust).
      signers : 1..N committee members, 0 the zero id, ids > N non-members.
      data    : fd = 0 no full data attached, 1 = value A, 2 = value B; root = 1 hash(A), 2 hash(B).
    Named deviations:  PartialWindow = FALSE is the pinned code (partial-signature messages are not checked against
@@ -86,13 +90,16 @@ RMod(r) == CASE r = R31M -> (IF N = 4 THEN 3 ELSE 1) [] r = R31 -> (IF N = 4 THE
              [] r = R63M -> (IF N = 4 THEN 3 ELSE 0) [] r = R63 -> (IF N = 4 THEN 0 ELSE 1)
              [] r = RMAX -> (IF N = 4 THEN 3 ELSE 1) [] OTHER -> r % N
 Leader(h, r) == ((HMod(h) + RMod(r) + N - 1) % N) + 1
-Signed(t) == Epoch(t.s) > ForkEpoch
+SignedAt(c) == Epoch(c) > ForkEpoch             \* c: the current slot as the code estimates it
+Signed(t) == SignedAt(t.s)
 TLeq(a, b) == a.s < b.s \/ (a.s = b.s /\ a.o <= b.o)
 
 (* role attributes (spectypes.BeaconRole: 0 attester, 1 aggregator, 2 proposer, 3 sync committee,
    4 sync committee contribution, 5 validator registration, 6 voluntary exit) *)
 ValidRole(role) == role \in 0..6
-TTL(role) == CASE role \in {2, 3, 4} -> 3 [] role \in {0, 1} -> 34 [] OTHER -> -1      \* -1: no late limit
+LateSlotAllowance == 2                              \* validation.go: lateSlotAllowance
+TTL(role) == CASE role \in {2, 3, 4} -> 1 + LateSlotAllowance [] role \in {0, 1} -> 32 + LateSlotAllowance
+               [] OTHER -> -1                       \* lateMessage: ttl by role; -1: no late limit (registration, exit)
 MaxRound(role) == CASE role \in {0, 1} -> 12 [] role \in {2, 3, 4} -> 6 [] OTHER -> 0
 DutyLimited(role) == role \in {0, 1, 5, 6}
 PreTypes == {1, 2, 3, 4, 5}        \* randao, selection proof, contribution proofs, validator registration, voluntary exit
@@ -101,19 +108,39 @@ PTypeOK(pt, role) ==
       [] role = 4 -> pt \in {0, 3} [] role = 5 -> pt = 4 [] role = 6 -> pt = 5 [] OTHER -> FALSE
 
 ----------------------------------------------------------------------------
-(* clock arithmetic of the code (network.go, validateSlotTime, currentEstimatedRound), in half seconds *)
+(* clock arithmetic of the code (beacon network, validateSlotTime, earlyMessage, lateMessage, currentEstimatedRound),
+   in milliseconds; slot start times relative to the start of slot code 0.  `c` is the current slot as the code
+   estimates it, EstimatedSlotAtTime(receivedAt.Unix()); the reception time itself is t.s, t.o with 0.5 s added. *)
+SlotDuration == 12000                   \* 12 s slots
+QuickTimeout == 2000                    \* roundtimer.QuickTimeout
+SlowTimeout == 120000                   \* roundtimer.SlowTimeout
+QuickTimeoutThreshold == 8              \* roundtimer.QuickTimeoutThreshold
+FirstRound == 1                         \* specqbft.FirstRound
+AllowedRoundsInFuture == 1              \* validation.go: allowedRoundsInFuture (allowedRoundsInPast is not enforced by the code)
+LateMessageMargin == 3000               \* validation.go: lateMessageMargin
+ClockErrorTolerance == 50               \* validation.go: clockErrorTolerance
+SlotStart(k) == k * SlotDuration
+ReceivedAt(t) == SlotStart(t.s) + 1000 * t.o + 500
+
 Special(k) == k <= ONE \/ k >= H63M              \* start time far in the past: slots 0, 1; 2^63-1, 2^63, 2^64-1 wrap to about genesis
 FutureFits(k) == k \in {H31M, H31, H32M, H32}   \* start time computed correctly, far in the future
 Alias(k) == IF k = H62 THEN 0 ELSE IF FutureFits(k) THEN 100000 ELSE k      \* the slot whose start time the code computes for k
-Early(h, t) == IF h >= H62 /\ OverflowGuard THEN TRUE       \* 2^62+Base, 2^63-1, 2^63, 2^64-1 are beyond MaxInt64/12
-               ELSE ~Special(h) /\ Alias(h) > t.s   \* slotEnd(current) - 50ms before slotStart(h); 2^63 and 2^64-1 wrap to genesis
-Late(h, role, t) == TTL(role) >= 0 /\ (Special(h) \/ t.s > Alias(h) + TTL(role))
+(* earlyMessage: slotEnd(current) - tolerance is before slotStart(h); 2^63 and 2^64-1 wrap to genesis *)
+Early(h, c) == IF h >= H62 /\ OverflowGuard THEN TRUE       \* 2^62+Base, 2^63-1, 2^63, 2^64-1 are beyond MaxInt64/12
+               ELSE ~Special(h) /\ SlotStart(c + 1) - ClockErrorTolerance < SlotStart(Alias(h))
+(* lateMessage: slotStart(current) - (slotStart(h + ttl) + margin + tolerance) > 0 *)
+Late(h, role, c) == TTL(role) >= 0 /\ (Special(h) \/ SlotStart(c) - (SlotStart(Alias(h) + TTL(role)) + LateMessageMargin + ClockErrorTolerance) > 0)
+(* currentEstimatedRound(sinceSlotStart) *)
+CurrentEstimatedRound(since) ==
+    LET currentQuickRound == FirstRound + (since \div QuickTimeout) IN
+    IF currentQuickRound <= QuickTimeoutThreshold THEN currentQuickRound
+    ELSE LET sinceFirstSlowRound == since - QuickTimeoutThreshold * QuickTimeout
+         IN QuickTimeoutThreshold + FirstRound + (sinceFirstSlowRound \div SlowTimeout)
 EstRound(h, t) ==        \* estimated round of a message for slot h received at t
     IF Special(h) THEN 100000
-    ELSE LET e2 == 2 * ((t.s - Alias(h)) * 12 + t.o) + 1      \* elapsed half seconds since slot start
-             q  == 1 + (e2 \div 4)                      \* QuickTimeout = 2 s
-         IN IF e2 <= 0 THEN 1                                \* not after the slot start: FirstRound
-            ELSE IF q <= 8 THEN q ELSE 9 + ((e2 - 32) \div 240)   \* SlowTimeout = 2 min after 8 quick rounds
+    ELSE LET since == ReceivedAt(t) - SlotStart(Alias(h))
+         IN IF since <= 0 THEN FirstRound                    \* ~receivedAt.After(slotStartTime)
+            ELSE CurrentEstimatedRound(since)
 
 ----------------------------------------------------------------------------
 ZeroCounts == [pre |-> 0, prop |-> 0, prep |-> 0, comm |-> 0, dec |-> 0, rc |-> 0, post |-> 0]
@@ -130,8 +157,8 @@ IsDecided(m) == m.mt = 2 /\ Len(m.sg) > 1
 HasFullData(m) == (m.mt \in {0, 3} \/ IsDecided(m)) /\ m.fd # 0
 
 (* what validateP2PMessage sees after the (era dependent) envelope handling *)
-Payload(m, t) ==
-    IF ~Signed(t)
+Payload(m, c) ==
+    IF ~SignedAt(c)
     THEN CASE m.raw = "empty" -> "nodata" [] m.raw = "junk" -> "junk"
            [] OTHER -> IF m.env = "none" THEN "msg" ELSE "junk"
     ELSE CASE m.raw = "empty" -> "short" [] m.raw = "junk" -> "junk"
@@ -139,13 +166,15 @@ Payload(m, t) ==
            [] m.env = "short" -> "short" [] m.env = "nomsg" -> "nodata"
            [] OTHER -> "msg"
 
-PubRules(m, t) ==
-    LET p == Payload(m, t) IN
+PubRulesC(m, c) ==
+    LET p == Payload(m, c) IN
     CASE p = "short" -> Rej("signed message could not be decoded")
       [] p = "nodata" -> Rej("pub-sub message has no data")
       [] p = "junk" -> Rej("pub-sub message is malformed")
       [] G("topic") /\ m.topic # "ok" -> Rej("topic not found")
       [] OTHER -> Pass
+
+PubRules(m, t) == PubRulesC(m, t.s)
 
 SSVRules(m) ==
     CASE m.body = "empty" -> Ign("empty data")
@@ -225,24 +254,24 @@ BehaviourLoop(m, S, k) ==
     IF k > Len(m.sg) THEN Pass
     ELSE Then(BehaviourCons(m, IF m.sg[k] \in Members THEN S[m.sg[k]] ELSE NoSS), BehaviourLoop(m, S, k + 1))
 
-EnvRules(m, t) ==
-    IF ~Signed(t) \/ ~G("signature") THEN Pass
+EnvRules(m, c) ==
+    IF ~SignedAt(c) \/ ~G("signature") THEN Pass
     ELSE CASE m.env = "unkop" -> Rej("operator not found")
            [] m.env \in {"badsig", "badkey1", "badkey2", "badkey3", "badkey4"} -> Rej("signature verification")
            [] OTHER -> Pass
 
-ConsRules(m, t, S) ==
+ConsRules(m, t, c, S) ==
     Then(IF m.role \in {5, 6} THEN Rej("unexpected consensus message for this role") ELSE Pass,
     Then(IF m.sf = "zero" THEN Rej("zero signature") ELSE Pass,
     Then(IF m.mt \notin 0..3 THEN Rej("unknown QBFT message type") ELSE Pass,
     Then(ConsSigners(m),
-    Then(IF G("early") /\ Early(m.h, t) THEN Ign("early message") ELSE Pass,
-    Then(IF G("late") /\ Late(m.h, m.role, t) THEN Ign("late message") ELSE Pass,
+    Then(IF G("early") /\ Early(m.h, c) THEN Ign("early message") ELSE Pass,
+    Then(IF G("late") /\ Late(m.h, m.role, c) THEN Ign("late message") ELSE Pass,
     Then(IF G("round-max") /\ m.r > MaxRound(m.role) THEN Ign("round is too high for this role") ELSE Pass,
-    Then(IF G("round-est") /\ (m.r < 1 \/ m.r > EstRound(m.h, t) + 1) THEN Ign("message round is too far from estimated") ELSE Pass,
+    Then(IF G("round-est") /\ (m.r < FirstRound \/ m.r > EstRound(m.h, t) + AllowedRoundsInFuture) THEN Ign("message round is too far from estimated") ELSE Pass,
     Then(IF G("hash") /\ HasFullData(m) /\ m.fd # m.root THEN Rej("root doesn't match full data hash") ELSE Pass,
     Then(BehaviourLoop(m, S, 1),
-         EnvRules(m, t)))))))))))
+         EnvRules(m, c)))))))))))
 
 (* validatePartialMessages *)
 PartialMsgs(m) ==
@@ -261,21 +290,24 @@ BehaviourPartial(m, ss) ==
               IF m.h <= ss.slot /\ (IF m.pt \in PreTypes THEN ss.c.pre > 1 ELSE ss.c.post > 1)
               THEN Ign("too many messages of same type per round") ELSE Pass))
 
-PartialRules(m, t, S) ==
+PartialRules(m, t, c, S) ==
     Then(IF m.pt \notin 0..5 THEN Rej("unknown partial signature message type") ELSE Pass,
     Then(IF ~PTypeOK(m.pt, m.role) THEN Rej("partial signature type and role don't match") ELSE Pass,
     Then(PartialMsgs(m),
-    Then(IF PartialWindow /\ Early(m.h, t) THEN Ign("early message") ELSE Pass,
-    Then(IF PartialWindow /\ Late(m.h, m.role, t) THEN Ign("late message") ELSE Pass,
+    Then(IF PartialWindow /\ Early(m.h, c) THEN Ign("early message") ELSE Pass,
+    Then(IF PartialWindow /\ Late(m.h, m.role, c) THEN Ign("late message") ELSE Pass,
     Then(IF m.sg[1] \in Members THEN BehaviourPartial(m, S[m.sg[1]]) ELSE Pass,
     Then(IF m.sf = "zero" THEN Rej("zero signature") ELSE Pass,
-         EnvRules(m, t))))))))
+         EnvRules(m, c))))))))
 
-Verdict(m, t, sg) ==
-    LET res == Then(PubRules(m, t),
+(* t: the reception time, c: the current slot the code derives from it (t.s, see the header) *)
+VerdictC(m, t, c, sg) ==
+    LET res == Then(PubRulesC(m, c),
                Then(SSVRules(m),
-                    IF m.st = "cons" THEN ConsRules(m, t, sg[m.role]) ELSE PartialRules(m, t, sg[m.role])))
+                    IF ~ValidRole(m.role) THEN Acc        \* unreachable: SSVRules rejects invalid roles
+                    ELSE IF m.st = "cons" THEN ConsRules(m, t, c, sg[m.role]) ELSE PartialRules(m, t, c, sg[m.role])))
     IN IF res.v = "pass" THEN Acc ELSE res
+Verdict(m, t, sg) == VerdictC(m, t, t.s, sg)
 
 ----------------------------------------------------------------------------
 (* state update on accept *)
@@ -311,9 +343,11 @@ Update(S, m) ==     \* S = sig[m.role]; only members can be in an accepted messa
 ----------------------------------------------------------------------------
 (* DECLARATIVE: the statement of C09.  Returns the name of the first rule the message breaks, "none" if it
    breaks none.  `H` is the set of previously accepted [m, t]. *)
-Elapsed2(h, t) == 2 * ((t.s - h) * 12 + t.o) + 1                    \* half seconds since the start of slot h
-Deadline2(r) == IF r <= 8 THEN 4 * r ELSE 32 + 240 * (r - 8)         \* end of round r of an instance started at slot start
-RoundAt(h, t) == CHOOSE r \in 1..40 : Deadline2(r - 1) <= Elapsed2(h, t) /\ Elapsed2(h, t) < Deadline2(r)
+(* the round a correct instance started at the slot start is in (round timer: rounds 1..8 time out after 2 s each, later
+   rounds after 2 min each), written independently of the operational arithmetic above; milliseconds *)
+ElapsedMs(h, t) == (t.s - h) * 12000 + t.o * 1000 + 500             \* since the start of slot h
+DeadlineMs(r) == IF r <= 8 THEN 2000 * r ELSE 16000 + 120000 * (r - 8)   \* end of round r
+RoundAt(h, t) == CHOOSE r \in 1..40 : DeadlineMs(r - 1) <= ElapsedMs(h, t) /\ ElapsedMs(h, t) < DeadlineMs(r)
 
 LeaderD(h, r) == Leader(h, r)
 
@@ -378,13 +412,13 @@ Apply(m, t, accepted) ==
 Validate(m, t) ==
     /\ ~done
     /\ TLeq(now, t)
-    /\ LET vd == IF ValidRole(m.role) THEN Verdict(m, t, sig)
-                 ELSE Then(PubRules(m, t), Then(SSVRules(m), Acc))
+    /\ LET vd == VerdictC(m, t, t.s, sig)
            room == Cardinality(hist) < MaxAccepts
        IN /\ Apply(m, t, vd.v = "accept" /\ room)
           /\ done' = (vd.v = "accept" /\ ~room)
           /\ act' = [name |-> "Validate", m |-> m, t |-> t, v |-> vd.v, rule |-> vd.rule,
-                     g |-> IF vd.v = "accept" THEN GossipBreak(m, t, hist) ELSE "-"]
+                     g |-> IF vd.v = "accept" THEN GossipBreak(m, t, hist) ELSE "-",
+                     rb |-> t.o <= 10 \/ VerdictC(m, t, t.s + 1, sig) = vd]
 
 Next == \E t \in Times, m \in Alphabet : Validate(m, t)
 Spec == Init /\ [][Next]_vars
@@ -393,6 +427,9 @@ Spec == Init /\ [][Next]_vars
 (* properties *)
 Total == [][act'.v \in {"accept", "ignore", "reject"}]_vars
 AcceptSound == [][act'.v = "accept" => act'.g \in ({"none"} \cup KnownGaps)]_vars
+(* a time point in the last second of a slot (o = 11) is only used with messages whose verdict does not depend on
+   whether the code's truncated clock already shows the next slot *)
+ClockRobust == [][act'.rb]_vars
 (* the operational state is a function of the history: what the property's limits talk about is what the code tracks *)
 StateSound ==
     \A r \in RolesUsed, i \in Members :
